@@ -53,6 +53,11 @@ func (eval Evaluator[T]) Evaluate(input interface{}, p interface{}, targetScale 
 		return nil, fmt.Errorf("cannot evaluatePolyVector: invalid input, must be either *rlwe.Ciphertext or *PowerBasis")
 	}
 
+	// A constant polynomial consumes no level: it is the encoding of its coefficient at the target scale.
+	if polyVec.Value[0].Degree() == 0 {
+		return eval.EvaluatePolynomialVectorFromPowerBasis(powerbasis.Value[1].Level(), polyVec, powerbasis, targetScale)
+	}
+
 	if level, depth := powerbasis.Value[1].Level(), levelsConsumedPerRescaling*polyVec.Value[0].Depth(); level < depth {
 		return nil, fmt.Errorf("%d levels < %d log(d) -> cannot evaluate poly", level, depth)
 	}
